@@ -239,6 +239,11 @@ func overflowTest(t *testing.T, prop string) {
 			{K: engine.KRemove, P: "fresh"}, {K: engine.KCreate, P: "fresh/y"}, {K: engine.KSync},
 			{K: engine.KList}, {K: engine.KFdchk},
 		}
+		if prop == "C10" {
+			// a second overflow on the same Watcher is announced again
+			c.Steps = append(c.Steps, engine.Step{K: engine.KOverflow, P: "d1", N: engine.MaxQueuedEvents() + 1 + extra%977},
+				engine.Step{K: engine.KCreate, P: "d1/after-second"}, engine.Step{K: engine.KSync}, engine.Step{K: engine.KList})
+		}
 		w := engine.Exec(c)
 		engine.RecordCase(prop, c, w, true)
 		owned := map[string]bool{engine.FErrors: true, engine.FMissing: true, engine.FExtra: true, engine.FAddErr: true, engine.FRmErr: true, engine.FWedge: true, engine.FList: true, engine.FClosed: true}
